@@ -45,6 +45,8 @@ type facts struct {
 	WriteSites  []string            `json:"write_sites"` // index assignments / delete / in hand-written files
 	VisitorGen  [][2]string         `json:"visitor_gen"` // function of jsonquery_visitor_impl.go -> translated | forwards:X | unsupported: why
 	VisitorNote []string            `json:"visitor_notes"`
+	LexerATN    string              `json:"lexer_atn"`      // equivalent | differs… | unreadable: why  (serialised lexer ATN vs the token rules of the .g4)
+	LexerATNWit []atnWitness        `json:"lexer_atn_witnesses"`
 	OpsGen      [][2]string         `json:"ops_gen"` // function of operation.go / *_operation.go -> translated | unsupported: why
 }
 
@@ -391,6 +393,9 @@ func main() {
 	f.ATNDigest = map[string]string{}
 
 	// ---------- T1: the grammar file ----------
+	var gram *grammar
+	var tokRules []*grule
+	var implicitLits []string
 	var lexLean []string
 	src, err := os.ReadFile(filepath.Join(repo, "parser", "JsonQuery.g4"))
 	if err == nil {
@@ -402,6 +407,8 @@ func main() {
 			for _, r := range rules {
 				g.byName[r.name] = r
 			}
+			gram = g
+			implicitLits = g.implicitLiterals()
 			kind := 0
 			for _, l := range g.implicitLiterals() {
 				kind++
@@ -427,6 +434,7 @@ func main() {
 					continue
 				}
 				kind++
+				tokRules = append(tokRules, r)
 				re, rerr := g.ruleRegex(r, 0)
 				if rerr != nil {
 					err = rerr
@@ -886,6 +894,14 @@ func main() {
 	sort.Strings(f.PkgVars)
 	sort.Strings(f.WriteSites)
 
+	f.LexerATN = "unreadable: grammar file or lexer file not read"
+	if gram != nil && f.G4OK {
+		for _, gf := range files {
+			if gf.name == "jsonquery_lexer.go" {
+				f.LexerATN, f.LexerATNWit = compareLexerATN(gf.file, gram, tokRules, implicitLits, render)
+			}
+		}
+	}
 	// ---------- emit ----------
 	os.MkdirAll(outdir, 0o755)
 	var gl strings.Builder
@@ -930,6 +946,7 @@ func main() {
 	fl.WriteString("def syncUses : List String := " + leanStrs(f.SyncUses) + "\n\n")
 	fl.WriteString("def observers : List String := " + leanStrs(f.Observers) + "\n\n")
 	fl.WriteString("def reflectUses : List String := " + leanStrs(f.ReflectUses) + "\n\n")
+	fl.WriteString("/-- the serialised lexer ATN of jsonquery_lexer.go against the token rules of JsonQuery.g4, rule by rule (extract/atn.go) -/\ndef lexerAtn : String := " + leanStr(f.LexerATN) + "\n\n")
 	fl.WriteString("end Rules.Generated\n")
 	os.WriteFile(filepath.Join(outdir, "Facts.lean"), []byte(fl.String()), 0o644)
 
